@@ -263,3 +263,21 @@ def powerset(items, maxk=None):
     for k in range(top + 1):
         for c in itertools.combinations(items, k):
             yield c
+
+
+def run_pool(jobs, assertions=0, reclimit=0, into=None):
+    """Run jobs in a fresh pool with the given assertion setting; merge the Tallies."""
+    t = into if into is not None else Tally()
+    pool = Pool(assertions, reclimit=reclimit)
+    try:
+        pool.run(jobs, into=t)
+    finally:
+        pool.close()
+    return t
+
+
+def chunks(items, n):
+    items = list(items)
+    n = max(1, n)
+    size = max(1, (len(items) + n - 1) // n)
+    return [items[i:i + size] for i in range(0, len(items), size)]
